@@ -294,3 +294,14 @@ impl Response {
             })),
 //@@ end
 }
+
+impl Response {
+//@@ fn src/parsing/response.rs impl~Response status props=C09
+//@@ contract
+        ensures res == self.sp_status(),
+//@@ end
+//@@ fn src/parsing/response.rs impl~Response headers props=C09
+//@@ contract
+        ensures *res == self.sp_headers(),
+//@@ end
+}
